@@ -20,6 +20,8 @@ import DateutilVerif.Proofs.RRuleMinutelyBH
 import DateutilVerif.Proofs.RRuleSecondlyBS
 import DateutilVerif.Proofs.RRuleMinutelyBHM
 import DateutilVerif.Proofs.RRuleWeeklyW
+import DateutilVerif.Proofs.RRuleMonthlyE
+import DateutilVerif.Proofs.RRuleWeeklyE
 import DateutilVerif.Proofs.RRuleEDaily
 import DateutilVerif.Proofs.RRuleEHourly
 import DateutilVerif.Proofs.RRuleEHourlyBy
@@ -195,5 +197,13 @@ theorem iter_eq_spec_supported (a : Args) (r : Rule) (h : construct a = .ok r) (
     obtain ⟨hf, ⟨⟨hi, hv, hz⟩, hw, he⟩, h3, h4, h5, h6⟩ := hs
     exact iter_eq_spec_secondly_bysecond_easter
       ⟨hf, hi, hv, hw, someWith_elim he, hz, optNonempty_elim h3, optNonempty_elim h4, ne_none_elim h5, h6⟩ h n hr.1 hr.2
+  | monthlyEaster =>
+    obtain ⟨hf, ⟨⟨hi, hv, hz⟩, hw, he⟩, hp⟩ := hs
+    exact ⟨n, by omega, by simp [Family.periodsPerTurn],
+      iter_eq_spec_monthly_easter ⟨hf, hi, hv, hw, hz, hp, someWith_elim he⟩ h n hr.1 hr.2⟩
+  | weeklyEaster =>
+    obtain ⟨hf, ⟨hi, hv, hz⟩, hw, he, h3, h4, h5⟩ := hs
+    exact ⟨n, by omega, by simp [Family.periodsPerTurn],
+      iter_eq_spec_weekly_easter ⟨hf, hi, hv, hw, hz, someWith_elim he, h3, h4, untilOk_elim h5⟩ h n hr.1 hr.2⟩
 
 end RRule
